@@ -137,6 +137,32 @@ def run_transforms(case):
                                             "kappa": kappa}, pair)
                 if abs(float(x2[k]) - orig) > (tol + 16 * EPS) * abs(orig):
                     bad("inverse_of_transform", {"x": [a, b], "roundtrip": [float(v) for v in x2], "kappa": kappa}, pair)
+    # array arguments (1-D, 2-D, integer-typed) give element by element what scalar arguments give
+    for pair, (T, Ti, Tm, Tim) in mp_maps().items():
+        A, B = np.meshgrid(grid, grid, indexing="ij")
+        for nm, fun in (("forward", T), ("inverse", Ti)):
+            sc = np.array([[[float(v) for v in fun(float(a), float(b))] for b in grid] for a in grid])      # (g, g, 2)
+            for kind, a_, b_ in (("2d", A, B), ("1d", A.ravel(), B.ravel())):
+                n += 1
+                try:
+                    y0, y1 = fun(a_, b_)
+                    got = np.stack([np.asarray(y0, dtype=float).reshape(A.shape), np.asarray(y1, dtype=float).reshape(A.shape)], axis=-1)
+                except Exception as e:
+                    bad("array_arguments", {"direction": nm, "kind": kind, "type": type(e).__name__, "msg": str(e)[:120]}, pair)
+                    continue
+                if not np.allclose(got, sc, rtol=4 * EPS, atol=0, equal_nan=True):
+                    bad("array_arguments", {"direction": nm, "kind": kind, "max_rel_difference": float(np.nanmax(np.abs(got - sc) / np.abs(sc)))}, pair)
+        ig = np.arange(1, 8)
+        IA, IB = np.meshgrid(ig, ig, indexing="ij")
+        for nm, fun in (("forward", T), ("inverse", Ti)):
+            n += 1
+            try:
+                yi = fun(IA, IB)
+                yf = fun(IA.astype(float), IB.astype(float))
+                if not all(np.allclose(np.asarray(u, dtype=float), np.asarray(v, dtype=float), rtol=4 * EPS, atol=0, equal_nan=True) for u, v in zip(yi, yf)):
+                    bad("integer_arguments", {"direction": nm}, pair)
+            except Exception as e:
+                bad("integer_arguments", {"direction": nm, "type": type(e).__name__, "msg": str(e)[:120]}, pair)
     # supplied Jacobians of the two predefined models = |det d transform / dx| (analytic and by central differences)
     for name in ("windmeier", "nonzero"):
         _, _, tr = build(name)
